@@ -259,14 +259,14 @@ class C08(Check):
         for c in cells:
             nsh = (8 if c["hb_steps"] else 2) if k_main == 1 else 16
             for sh in range(nsh):
-                yield dict(c, mode="dfs", k=k_main, shard=sh, nshards=nsh)
+                yield dict(c, mode="dfs", k=k_main, shard=sh, nshards=nsh, max_runs=100000 if tier == "quick" else 2500)
         # object-store weather on A's first pointer PUT, where the lock does not exclude the other committer
         for w in ("503_before", "lost_response", "applied_412"):
             for ops in pairs[:2] if tier == "quick" else pairs:
                 nsh = 2 if k_main == 1 else 8
                 for sh in range(nsh):
                     yield {"mode": "dfs", "ops": ops, "lock": "grant_all", "clock_steps": 0, "hb_steps": 0, "weather": w,
-                           "k": k_main, "shard": sh, "nshards": nsh}
+                           "k": k_main, "shard": sh, "nshards": nsh, "max_runs": 100000 if tier == "quick" else 2500}
         for z in ("JST-9", "EST5"):       # non-UTC process zones: lease age = local clock vs the store's UTC LastModified
             for sh in range(2):
                 yield {"mode": "dfs", "ops": ["append", "append"], "lock": "real", "clock_steps": 1, "hb_steps": 0,
@@ -291,7 +291,7 @@ class C08(Check):
             for sh in range(nsh):
                 # quick: the real-lock cell (clock actor = 3 actors) is budgeted per shard; the
                 # grant-all cell is enumerated completely
-                mr = (250 if ci == 0 else 100000) if tier == "quick" else 6000
+                mr = (250 if ci == 0 else 100000) if tier == "quick" else 1500
                 yield dict(c, mode="dfs", k=kk, shard=sh, nshards=nsh, max_runs=mr)
         nrand = 32 if tier == "quick" else 500
         for i in range(nrand):
